@@ -821,3 +821,16 @@ M('layout-guard-only-in-lazy-mode', 'fault', ['C14', 'C17'], ['SA-GUARD.layout']
 
 M('relocation-records-not-asked-first', 'fault', ['C14'], ['SA-VBM'],
   [(PY, '                dr.DirectoryRecord().check_new_dir(self.pvd, name, parent,\n                                                   self.pvd.sequence_number(),\n                                                   self.rock_ridge, new_rr_name,\n                                                   self.logical_block_size,\n                                                   True, False, self.xa,\n                                                   file_mode, time.time())\n                dr.DirectoryRecord().check_new_dir(self.pvd, iso9660_name,\n                                                   parent,\n                                                   self.pvd.sequence_number(),\n                                                   self.rock_ridge, new_rr_name,\n                                                   self.logical_block_size,\n                                                   False, True, self.xa,\n                                                   file_mode, time.time())\n\n', "                pass\n\n")], 'add_directory')
+
+# seeding round 7
+M('partition-size-divided-without-the-offset', 'fault', ['C05', 'C12'], ['SA-SYM.rebase'],
+  [(ISOH, "        self.geometry_sectors = min((psize + self.part_offset) // ((ecyle + 1) * self.geometry_heads), 63)\n",
+    "        self.geometry_sectors = min(psize // ((ecyle + 1) * self.geometry_heads), 63)\n")], 'IsoHybrid.parse')
+M('twin-partition-size-offset-first', 'twin', ['C05', 'C12'], [],
+  [(ISOH, "        self.geometry_sectors = min((psize + self.part_offset) // ((ecyle + 1) * self.geometry_heads), 63)\n",
+    "        total = self.part_offset + psize\n        self.geometry_sectors = min(total // ((ecyle + 1) * self.geometry_heads), 63)\n")])
+M('seek-skipped-when-position-remembered', 'fault', ['C16'], ['SA-SEEK.position'],
+  [(IOF, "                fp.seek(startpos + offset - partstart)\n                return fp, partstart + partlen - offset\n",
+    "                if getattr(self, '_synced', None) != (fp, offset):\n                    fp.seek(startpos + offset - partstart)\n                    self._synced = (fp, offset)\n                return fp, partstart + partlen - offset\n")], 'only under a condition')
+M('twin-seek-operands-reordered', 'twin', ['C16'], [],
+  [(IOF, "                fp.seek(startpos + offset - partstart)\n", "                fp.seek(startpos - partstart + offset)\n")])
